@@ -126,3 +126,37 @@ Definition dec_status (s : option N) : status :=
   match s with Some c => Exited (Z.of_N c) | None => Signaled end.
 Definition run_exit (statuses : list (option N)) : N := Z.to_N (exit_code_of (map dec_status statuses)).
 Definition run_exit_fixed (statuses : list (option N)) : N := Z.to_N (exit_code_fixed (map dec_status statuses)).
+
+(* ------------------------------------------------------------------ *)
+(* end to end: the model's `execute` on an encoded world.
+   statuses : for an edition (year), what happens to the rustfmt child run for it: Some c = exits with code c,
+   None = killed by a signal; editions not listed exit with 0.
+   with_manifest_path = true models `--manifest-path cur_manifest` (given as any string ending in Cargo.toml).
+   result: (exit status, argv of every rustfmt command spawned, in order; elements as in run_argv) *)
+Fixpoint status_lookup (e : N) (l : list (N * option N)) : status :=
+  match l with
+  | [] => Exited 0
+  | (e', s) :: l' => if e =? e' then dec_status s else status_lookup e l'
+  end.
+Definition edition_of_argv (a : list arg) : N :=
+  fold_left (fun acc x => match x with AEdition e => e | _ => acc end) a 0.
+Definition enc_arg_world (a : arg) : N * text :=
+  match a with AFile p => (0, [N.div2 p]) | AStr t => (1, t) | AEdition e => (2, [e]) end.
+
+Definition run_execute (with_manifest_path quiet verbose all : bool) (packages : list N)
+           (check : bool) (message_format : option text) (rustfmt_options : list text)
+           (cur_manifest : N) (metas : list (N * enc_meta)) (broken : list N)
+           (statuses : list (N * option N)) : N * list (list (N * text)) :=
+  let w0 := run_world cur_manifest metas broken in
+  let w := MkWorld (w_meta w0) (w_canon w0) (w_exists w0) (w_toml_in w0) (w_cwd w0)
+                   (fun _ => fileP cur_manifest)
+                   (fun inv => status_lookup (edition_of_argv (i_argv inv)) statuses) in
+  let o := MkOpts quiet verbose false packages
+                  (if with_manifest_path then Some (txt "Cargo.toml") else None)
+                  message_format rustfmt_options all check in
+  let r := execute w (run_fuel metas) o in
+  (Z.to_N (fst r), map (fun inv => map enc_arg_world (i_argv inv)) (snd r)).
+
+(* run_exit for commands given as (edition, files) in spawn order, with the statuses by edition *)
+Definition run_exit_by_edition (statuses : list (N * option N)) (invs : list (N * list N)) : N :=
+  Z.to_N (exit_code_of (map (fun g => status_lookup (fst g) statuses) invs)).
